@@ -9,6 +9,26 @@ BASELINE = ("cd /repo && /venv/bin/python -m pytest -ra -q -p no:cacheprovider -
 
 # id -> (technique, level text, level note, design ref)
 CHECKS = {
+    "C01": ("differential monitors at the public one-population path against O-coal (exact lineage-death expectation) and O-sel (closed-form equilibrium by Gauss-Legendre), as refinement ladders",
+            "Random 1-4-epoch histories through Demographics1D.* and composed phi_1D/one_pop/from_phi programs (constants and lambda), "
+            "both extrapolation modes, at the default step and a tenth of it: 1.5% at the fine rung, 15% at the coarsest admissible "
+            "grids, first-order dt ratio, refinement monotonicity; equilibrium spectrum vs closed form with refinement; "
+            "finiteness/non-negativity over gamma in [-1e6,1e3] with the generator forced onto every regime switch; continuity "
+            "across switches; stationarity ladder under one_pop.",
+            "scipy.linalg.expm, Gauss-Legendre nodes; both oracles self-check against closed forms at start-up; limit statements "
+            "restated as finite ladders", "DESIGN.md §2 C01"),
+    "C03": ("metamorphic monitors: both sides of each identity are real executions (linearity in (phi,theta0); reference-size rescaling)",
+            "Integration.one_pop..five_pops on random densities with coefficient pairs incl. negative b and a=0, constant and "
+            "time-varying parameters, frozen/nomut flags; rescaling c in [0.05,20] of sizes/times vs rates; PhiManip.phi_1D under "
+            "the rescaling; whole random 1-3-population programs (equilibrium with selection, growth, splits, admixture, pulses, "
+            "migration, removal) ending in from_phi.",
+            "round-off amplification bounded by capping runs at a few hundred steps; scipy.quad tolerance for the h!=0.5 density", "DESIGN.md §2 C03"),
+    "C04": ("invariants asserted at a recording proxy of the integration kernels and mutation injection (per-sweep line-mass conservation, corner outflow, injection entries/mass, no unobserved change), plus API-level frozen/isolated-marginal checks",
+            "two_pops..five_pops with every frozen pattern (nomut in 2-D), random selection/migration, constant and time-dependent "
+            "drivers: every kernel sweep and injection of every run is checked online; total mass budget; frozen marginals at interior "
+            "frequencies; isolated subsets against the lower-dimensional integrator (same dt) or a replay of the recorded dt sequence; "
+            "no mutations into frozen/nomut populations; frozen+migration rejected for every (population, rate) pair. ASan overlay in thorough.",
+            "trapezoid weights of the kernel's own grid; tap is a secondary monitor (reports 'not attached' if Integration.int_c is renamed)", "DESIGN.md §2 C04"),
     "C02": ("differential monitor: every kernel/driver step is re-solved by an independent dense flux-form reference (O-scheme); ASan+UBSan build of the kernels in the thorough tier",
             "Single steps of all 15 per-axis kernels through the Cython entry points (cubic arrays, a different grid per axis, zero and "
             "non-zero rates, both delj settings incl. overflow and tiny-advection regimes) and through ctypes on non-cubic shapes, "
